@@ -435,6 +435,27 @@ pub fn run(def: &'static PropDef, tier: Tier, seed: u64) -> i32 {
         }
     }
 
+    // aggregate verdicts (properties whose oracle is a statistic over the whole sample)
+    if let Some(agg) = def.aggregate {
+        let cfg = RunCfg { tier, seed, shard: 0, nshards, scale: scale() };
+        if incomplete == 0 {
+            for (f, mut doc) in agg(&extra, &cfg) {
+                if let Some(o) = doc.as_object_mut() {
+                    o.insert("property".into(), json!(def.id));
+                    o.insert("sig".into(), json!(f.sig));
+                    o.insert("detail".into(), json!(f.detail));
+                }
+                let path = out_root().join("replays").join(format!(
+                    "{}-{:016x}-agg.json",
+                    def.id,
+                    crate::dna::fnv64(f.sig.as_bytes())
+                ));
+                std::fs::write(&path, serde_json::to_string_pretty(&doc).unwrap()).unwrap();
+                failures.push(FailureReport { sig: f.sig, detail: f.detail, replay: path.to_string_lossy().into() });
+            }
+        }
+    }
+
     // confirm failures (dedupe by signature)
     let mut violations: Vec<(String, String, String)> = vec![]; // sig, replay, detail
     let mut seen: BTreeSet<String> = BTreeSet::new();
